@@ -971,3 +971,158 @@ def component_sound(prop, tier, v):
 
 
 CHECKS["C02"] = check_C02
+
+
+def negation_sound(tier, v, extra_patterns=()):
+    """returns (stats, n, {pattern text: id of the known finding that makes its exhaustive part unsound})"""
+    cases = L.family_cases(tier, [("core", 5), ("dots", 4)] if tier == "quick" else [("core", 6), ("dots", 5)])
+    for p in extra_patterns:
+        sigma = sorted(set(C.cps(p)) - set(C.cps("{}<>:,*?[]()!-\\$0123456789")) | {97, 98, 47, 10})
+        cases.append({"id": len(cases) + 1, "kind": "glob", "fam": "walkneg", "e": C.cps(p), "sigma": sigma})
+    obs_path = L.observe(cases, "dfa,neg", "neg-" + tier)
+    out, stats = C.tlc("NegCheck.tla", "NegCheck.cfg", env={"OBS": obs_path}, timeout=3000, java_opts=["-Xmx12g"])
+    if not stats["ok"]:
+        C.log(stats.get("tail", ""))
+        raise C.ToolError("TLC did not complete on NegCheck")
+    by_id = None
+    n = 0
+    unsound = {}
+    for r in C.tlc_records(out):
+        if r["t"] == "IN":
+            n += 1
+        elif r["t"] == "DISAGREE":
+            if by_id is None:
+                by_id = {o["id"]: o for o in L.read_ndjson(obs_path)}
+            k = C.match_known(v.known, "C03", r)
+            unsound.setdefault(L.expr_of(by_id[r["id"]]), k["id"] if k else "unlisted")
+            v.disagree(r, "not(%r): %r is beneath a path that the exhaustive program matches but is not matched by the negation itself: the tree would be discarded with it" % (
+                L.expr_of(by_id[r["id"]]), C.text(r["path"])))
+    if n == 0:
+        raise C.ToolError("vacuous run of NegCheck")
+    return stats, n, unsound
+
+
+NEGATIONS = [["**/b/**"], ["b/**"], ["**/*.txt"], ["a/b"], ["**/{b}"], ["**/.h/**", "**/y.txt"], [""], ["{a/**,**/y.txt}"], ["**/<a:1,2>"],
+             ["a/**"], ["**"], ["*"], ["**/c/**"], ["**/{f,g}"], ["<*/>"], ["a/b/**", "b"], ["**/b"], ["?/**"], ["nonexistent"], ["**/a/*"]]
+
+
+def check_C03(tier):
+    t0 = time.time()
+    rnd = random.Random(C.SEED)
+    v = C.Verdict("C03")
+    n = 3 if tier == "quick" else 4
+    mc = [("filters under NegationSound tables", W.model_check("neg", W.mc_consts(n, 2), ["NothingBeneathDiscarded", "CancelOnce", "Final", "SameAsEntryFilter"]))]
+    for name, st in mc:
+        if not st["ok"]:
+            raise C.ToolError("the model itself violates an invariant (%s): %s" % (name, st.get("violation", st.get("tail", ""))[:1500]))
+    ns_stats, ns_n, unsound = negation_sound(tier, v, sorted({p for neg in NEGATIONS for p in neg if p}))
+    scenarios = []
+    for tname in ("plain", "deep"):
+        nodes, index = W.tree(W.TREES[tname])
+        unders = [None, "**", "**/*.txt" if tname == "plain" else "**/g", "a/**/{f,g,h}" if tname == "deep" else "a/**", "{a,b}/**", "b/**"]
+        for under in unders:
+            for neg in NEGATIONS:
+                if tier == "quick" and under not in (None, "**") and rnd.random() < 0.5:
+                    continue
+                for mode in (("text", "compiled") if tier == "thorough" else ("text" if len(scenarios) % 3 else "compiled",)):
+                    h = {"sid": len(scenarios) + 1, "nodes": nodes, "follow": False, "min": -1, "max": -1, "rooted": False,
+                         "walk_from": index["root"], "base": "abs", "tree": tname, "origin": "library",
+                         "layers": [{"kind": "not", "patterns": [C.cps(p) for p in neg], "mode": mode}],
+                         "desc": "%s over tree %s .not(%s as %s)" % ("path walk" if under is None else "glob %r" % under, tname, neg, mode)}
+                    if under is not None:
+                        h["glob"] = C.cps(under)
+                    h["_neg"] = tuple(neg)
+                    scenarios.append(h)
+    # two stacked negations and a negation next to an entry filter
+    nodes, index = W.tree(W.TREES["deep"])
+    for a, b in (("**/c/**", "**/g"), ("a/**", "**/h"), ("**/b/**", "**/b/**")):
+        h = {"sid": len(scenarios) + 1, "nodes": nodes, "follow": False, "min": -1, "max": -1, "rooted": False, "walk_from": index["root"],
+             "base": "abs", "tree": "deep", "origin": "library",
+             "layers": [{"kind": "not", "patterns": [C.cps(a)], "mode": "text"}, {"kind": "filter", "verdicts": {"root/b": "file"}},
+                        {"kind": "not", "patterns": [C.cps(b)], "mode": "compiled"}],
+             "desc": "path walk over tree deep .not(%r).filter_entry(root/b: file).not(%r)" % (a, b), "_neg": (a, b), "_two": True}
+        scenarios.append(h)
+    pivots = W.prepare_glob_scenarios(scenarios)
+    for h in scenarios:
+        if h.get("glob") is None:
+            h["_base_text"] = "root"
+    results, yielded, tstats, ntraces = W.run_and_validate("C03", scenarios, "c03", v, pivots=pivots)
+    # oracle: real is_match of the negation (and of the underlying glob) on root-relative paths
+    pairs = []
+    for h in scenarios:
+        for t in W.node_paths(dict(h, walk_from=h["walk_from"])):
+            rel = W.rel_to(t, h["_base_text"])
+            if h.get("_two"):
+                for p in h["_neg"]:
+                    pairs.append(((p,), rel))
+            else:
+                pairs.append((h["_neg"], rel))
+            if h.get("glob") is not None:
+                pairs.append(((C.text(h["glob"]),), rel))
+    is_match = W.matches(pairs)
+    n_oracle = 0
+    for h in scenarios:
+        r = results[h["sid"]]
+        got = sorted(os.path.normpath(C.text(b["item"]["facts"]["path"]["p"])) for b in r["blocks"] if b["item"]["k"] == "entry")
+        paths = W.node_paths(dict(h, walk_from=h["walk_from"]))
+        under = set()
+        for t in paths:
+            rel = W.rel_to(t, h["_base_text"])
+            if h.get("glob") is None:
+                under.add(t)
+            elif rel != "" and is_match[((C.text(h["glob"]),), rel)]:
+                under.add(t)
+        def negated(rel):
+            if h.get("_two"):
+                return any(is_match[((p,), rel)] for p in h["_neg"])
+            return is_match[(h["_neg"], rel)]
+        filtered = {t for l in h["layers"] if l["kind"] == "filter" for t in l["verdicts"]}
+        exp = sorted(t for t in under if not negated(W.rel_to(t, h["_base_text"])) and t not in filtered)
+        sig = {"prefixed_glob": h.get("glob") is not None and pivots.get(h["sid"], 0) > 0, "neg": list(h["_neg"]),
+               # the finding (if any) that TLC's NegationSound product reported for one of these negation patterns
+               "neg_finding": next((unsound[p] for p in h["_neg"] if p in unsound), "none")}
+        n_oracle += 1
+        # per entry: the negation layer discards exactly the entries whose root-relative path it matches
+        wrong_tree = []   # directories discarded as a tree although their root-relative path is not matched
+        if not h.get("_two"):
+            slot = r["slot_of"][0]
+            for y in yielded.get(h["sid"], []):
+                if y["err"] != "none" or not y["verdicts"]:
+                    continue
+                rel = W.rel_to(y["text"], h["_base_text"])
+                verdict = y["verdicts"][slot - 1]
+                m = is_match[(h["_neg"], rel)]
+                if (verdict != "keep") != m:
+                    residue = y["ins"][slot - 1] != "F"
+                    if verdict == "tree" and residue and sig["prefixed_glob"]:
+                        wrong_tree.append(y["text"])
+                    sig2 = dict(sig, residue_input=residue, verdict=verdict)
+                    v.disagree({"t": "DISAGREE", "what": "negation_verdict_differs_from_is_match", "sid": h["sid"], "sig": sig2, "scenario": h},
+                               "%s: entry %r (relative %r): not() answers %s but is_match is %s" % (h["desc"], y["text"], rel, verdict, m))
+        got_cmp = [t for t in got if h.get("glob") is None or t != h["_base_text"]]
+        exp_cmp = [t for t in exp if h.get("glob") is None or t != h["_base_text"]]
+        missing = sorted(set(exp_cmp) - set(got_cmp))
+        extra = sorted(set(got_cmp) - set(exp_cmp))
+        if missing:
+            sig3 = dict(sig, beneath_residue_tree_discard=bool(wrong_tree) and all(any(t.startswith(d + "/") for d in wrong_tree) for t in missing))
+            v.disagree({"t": "DISAGREE", "what": "entry_lost_by_negation", "sid": h["sid"], "sig": sig3, "scenario": h},
+                       "%s: entries that do not match the negation are missing: %s" % (h["desc"], missing))
+        if extra:
+            v.disagree({"t": "DISAGREE", "what": "negated_entry_yielded", "sid": h["sid"], "sig": sig, "scenario": h},
+                       "%s: yielded although matched by the negation (or not by the glob): %s" % (h["desc"], extra))
+    samples = [{"scenario": h["desc"], "yielded": [os.path.normpath(C.text(b["item"]["facts"]["path"]["p"])) for b in results[h["sid"]]["blocks"] if b["item"]["k"] == "entry"][:8]}
+               for h in rnd.sample(scenarios, min(5, len(scenarios)))]
+    rc = v.finish()
+    C.write_evidence("C03", tier, "model_checking", {
+        "states": sum(st["distinct"] for _, st in mc) + tstats["distinct"] + ns_stats["distinct"],
+        "transitions": sum(st["generated"] for _, st in mc) + tstats["generated"] + ns_stats["generated"],
+        "traces_validated_against_impl": ntraces,
+        "samples": samples,
+        "evaluations": len(scenarios) + ns_n, "distinct_nontrivial": len({(h["tree"], C.text(h["glob"]) if h.get("glob") else None, h["_neg"]) for h in scenarios}),
+        "rule": "(i) model: under NegationSound-consistent verdict tables, tree discards give the result of per-entry filtering (all trees up to %d nodes, 2 layers, all orders); (ii) NegationSound discharged by TLC for %d negation patterns of the lexeme families with an exhaustive part (product exhaustive automaton x whole-pattern automaton x obligation monitor, all paths); (iii) %d real walks (path walks, glob walks with and without prefix) x %d negations (expressions, compiled, any of several, the empty pattern, partially exhaustive alternations), traces validated against Walk.tla, yielded set and every not() verdict compared with the real is_match on the root-relative path" % (n, ns_n, len(scenarios), len(NEGATIONS)),
+        "oracle_comparisons": n_oracle, "known_findings_hit": sorted(v.findings), "exhaustive": True,
+    }, time.time() - t0, len(v.violations), WALK_TRUST + ["oracle: per-entry filtering with the real is_match (C01 covers is_match)"])
+    return rc
+
+
+CHECKS["C03"] = check_C03
